@@ -23,7 +23,7 @@ def project(c, r):
 def gen(ctx):
     rng = ctx.rng
     for _ in range(40000 if ctx.thorough else 2000):
-        yield Case("RUN", R.gen_case(rng, n=rng.randrange(2, 61 if ctx.thorough else 31), addrs=rng.choice([(5, 6), (5, 6, 7)]), adversarial=0.02, faults=0.02, stop=0.01), tags=("history",))
+        yield Case("RUN", R.gen_case(rng, n=rng.randrange(2, 61 if ctx.thorough else 31), addrs=rng.choice([(5, 6), (5, 6, 7), (5, 0), (0, 9, 5), (0, 4294967295)]), adversarial=0.02, faults=0.02, stop=0.01), tags=("history",))
 
 
 def classify(c, r):
